@@ -229,22 +229,27 @@ impl<'a> Fuzzer<'a> {
             "NonFungibleProof" => return Some(Route::OwnedProof(false)),
             "FungibleVault" | "NonFungibleVault" => {
                 let fungible = bp == "FungibleVault";
-                let any_vault = |rng: &mut Rng| w.by_bp.get(bp).filter(|v| !v.is_empty()).map(|v| *rng.pick(v));
-                return match rng.below(10) {
-                    0..=4 => {
-                        let own: Vec<u32> = w.proxy_vaults.iter().filter(|(r, _, _)| (r.as_node_id().entity_type() == Some(EntityType::GlobalFungibleResourceManager)) == fungible).map(|(_, i, _)| *i).collect();
-                        if own.is_empty() {
-                            None
-                        } else {
-                            Some(Route::ProxyVault(*rng.pick(&own)))
-                        }
+                // vaults of the world's AllowAll resources are preferred (recall / freeze are authorised there)
+                let all: Vec<NodeId> = w.by_bp.get(bp).cloned().unwrap_or_default();
+                let mine: Vec<NodeId> = all.iter().filter(|v| w.affinity.get(*v).map(|a| a.iter().any(|r| w.my_resources.contains(r))).unwrap_or(false)).cloned().collect();
+                let any_vault = |rng: &mut Rng| -> Option<NodeId> {
+                    if !mine.is_empty() && rng.chance(3, 4) {
+                        Some(*rng.pick(&mine))
+                    } else if !all.is_empty() {
+                        Some(*rng.pick(&all))
+                    } else {
+                        None
                     }
-                    5..=7 => any_vault(rng).map(Route::Direct),
-                    8 => any_vault(rng).map(Route::DirectViaProxy),
-                    _ => {
-                        // a vault of the other kind / a wrong index
-                        Some(Route::ProxyVault(rng.below(w.proxy_vaults.len() as u64 + 1) as u32))
-                    }
+                };
+                let own: Vec<u32> = w.proxy_vaults.iter().filter(|(r, _, _)| (r.as_node_id().entity_type() == Some(EntityType::GlobalFungibleResourceManager)) == fungible).map(|(_, i, _)| *i).collect();
+                let direct_only = t.direct_access() && !t.normal_access();
+                let roll = rng.below(20);
+                return match (direct_only, roll) {
+                    (true, 0..=15) | (false, 14..=16) => any_vault(rng).map(Route::Direct),
+                    (true, 16..=17) | (false, 17) => any_vault(rng).map(Route::DirectViaProxy),
+                    (false, 0..=13) if !own.is_empty() => Some(Route::ProxyVault(*rng.pick(&own))),
+                    // a vault of the other kind / a wrong index / a direct-only method through a normal reference
+                    _ => Some(Route::ProxyVault(rng.below(w.proxy_vaults.len() as u64 + 1) as u32)),
                 };
             }
             _ => {}
@@ -273,7 +278,12 @@ impl<'a> Fuzzer<'a> {
             *rng.pick(&w.keys).account.as_node_id()
         } else {
             // prefer entities the world owns (those with an affinity entry)
-            let owned: Vec<NodeId> = instances.iter().filter(|n| w.affinity.contains_key(n)).cloned().collect();
+            let is_rm = bp.ends_with("ResourceManager");
+            let owned: Vec<NodeId> = instances
+                .iter()
+                .filter(|n| if is_rm { ResourceAddress::try_from(n.0.as_slice()).map(|r| w.my_resources.contains(&r)).unwrap_or(false) } else { w.affinity.contains_key(n) })
+                .cloned()
+                .collect();
             if !owned.is_empty() && rng.chance(4, 5) {
                 *rng.pick(&owned)
             } else {
@@ -318,6 +328,23 @@ impl<'a> Fuzzer<'a> {
         let mut g = Gen::new(w, rng);
         g.bp_hint = Some((t.package, t.blueprint.clone()));
         g.names = cat.targets.iter().filter(|x| x.blueprint == t.blueprint).map(|x| x.function.clone()).collect();
+        {
+            // role names the receiver (and its modules) declare
+            let receiver_bp: Option<String> = match &route {
+                Route::Method(n) | Route::MethodViaProxy(n) | Route::Module(n, _) | Route::ModuleViaProxy(n, _) => blueprint_of(w.ledger.db(), n).map(|b| b.blueprint_name),
+                _ => Some(t.blueprint.clone()),
+            };
+            let mut rn: Vec<String> = vec![];
+            let mut pairs: Vec<(u8, String)> = vec![];
+            for (module, bp) in receiver_bp.iter().map(|s| (0u8, s.as_str())).chain([(1u8, "Metadata"), (2u8, "ComponentRoyalty")]) {
+                if let Some(r) = cat.roles.get(bp) {
+                    rn.extend(r.iter().cloned());
+                    pairs.extend(r.iter().map(|x| (module, x.clone())));
+                }
+            }
+            g.role_names = rn;
+            g.role_pairs = pairs;
+        }
         g.affinity = match &route {
             Route::Method(n) | Route::MethodViaProxy(n) | Route::Module(n, _) | Route::ModuleViaProxy(n, _) | Route::Direct(n) | Route::DirectViaProxy(n) => w.affinity.get(n).cloned().unwrap_or_default(),
             Route::ProxyVault(i) => w.proxy_vaults.get(*i as usize).map(|(r, _, _)| vec![*r]).unwrap_or_default(),
